@@ -221,6 +221,14 @@ def body_general(case):
     vals = [np.array([[ref_value(s, x[:, j]) for j in range(case['m'])] for s in f]) for f in case['phi']]
     want = psi_ref(vals)
     p = len(phi)
+    other_d = case['seed'] % 4 == 0
+    if other_d:
+        # the same basis-function objects were used before on a data set with more coordinates (they only read coordinates that exist
+        # in both): an object that fixed its dimension lazily at first use must still accept the data of this call
+        try:
+            tdt.basis_decomposition(np.vstack([np.asarray(x, dtype=float), 0.3 * np.ones((2, case['m']))]), phi)
+        except Exception:     # noqa -- history only
+            pass
     t = tdt.basis_decomposition(x, phi)
     require_consistent(t, 'consistent')
     n = [len(f) for f in phi]
